@@ -51,7 +51,7 @@ impl DebugServer {
         self.thread = Some(std::thread::spawn(move || {
             while !thread_shutdown.load(Ordering::Relaxed) {
                 let mut dbg = DebugSession::new(lsp.clone(), port);
-                match dbg.start() {
+                match dbg.start(&thread_shutdown) {
                     Ok(_) => (),
                     Err(e) => {
                         log::debug!("Could not start DebugSession: {:?}", e);
@@ -799,10 +799,16 @@ impl DebugSession {
         self.conn.as_ref().cloned()
     }
 
-    pub fn start(&mut self) -> MosResult<()> {
+    pub fn start(&mut self, shutdown: &AtomicBool) -> MosResult<()> {
         log::info!("DebugSession listening on port {}...", self.port);
-        let (debug_connection, _) = DebugConnection::tcp(&format!("127.0.0.1:{}", self.port))
-            .unwrap_or_else(|e| panic!("Couldn't listen on port {}: {}", self.port, e));
+        let debug_connection =
+            DebugConnection::tcp(&format!("127.0.0.1:{}", self.port), shutdown)
+                .unwrap_or_else(|e| panic!("Couldn't listen on port {}: {}", self.port, e));
+        let debug_connection = match debug_connection {
+            Some((debug_connection, _)) => debug_connection,
+            // The server is shutting down and nobody has connected
+            None => return Ok(()),
+        };
         self.conn = Some(Arc::new(debug_connection));
         let lsp_shutdown_receiver = self.lsp.lock().unwrap().add_shutdown_handler();
 
@@ -832,6 +838,8 @@ impl DebugSession {
                     Err(_) => break,
                 },
                 1 => {
+                    // A selected operation has to be completed, or it panics when it goes out of scope
+                    let _ = oper.recv(lsp_shutdown_receiver.receiver());
                     log::trace!("Shutdown received from LSP.");
                     break;
                 }
